@@ -123,7 +123,7 @@ impl Engine for St {
                 assumptions: vec!["the harness read loop retries Interrupted exactly like Read::read_to_end; the harness write loop like Write::write_all".into(), "a file cut exactly at an LZIP member boundary is a complete LZIP file and not a truncation".into()],
                 real,
                 stubs,
-                exhaustive_part: Some("every truncation offset and every call index for streams within the per-run point budget (512 / 96 / 64 quick; 8192 / 100000 / 4000 thorough)".into()),
+                exhaustive_part: Some("every truncation offset and every call index for streams within the per-run point budget (512 / 96 / 64 quick; 8192 / 1500 / 800 thorough)".into()),
             },
             "C01" | "C02" => PropMeta {
                 level: "exploration",
